@@ -808,6 +808,8 @@ class sym_int_type(int, metaclass=_IntMeta):
             return int.__new__(cls, x, *a)          # `int.__new__(EnumClass, value)` in the code under test
         if isinstance(x, SymInt):
             return x
+        if hasattr(x, '__symint__'):
+            return x.__symint__()                    # durations / instants of the virtual clock: whole seconds, as a term
         return int(x, *a)
 
     @staticmethod
@@ -845,6 +847,7 @@ def install(mods):
         i.HMAC = SymHMAC
         i.unpack = unpack
         i.bytes, i.bytearray = sym_bytes, sym_bytearray
+        i.int = sym_int_type
     ic = mods.get('ikesacontroller')
     if ic is not None:
         ic.bytes = sym_bytes
